@@ -1,5 +1,5 @@
 (* Properties/C11.v — Everything storrent sends to a peer is protocol-conformant. *)
-From Storrent Require Import Base.Bytes Base.Bencode Gen.Consts Model.Wire Model.PeerCore Proof.PeerCore Proof.Pex Proof.NoDupReqs.
+From Storrent Require Import Base.Bytes Base.Bencode Gen.Consts Model.Wire Model.PeerCore Proof.PeerCore Proof.Pex Proof.NoDupReqs Proof.Sent.
 Open Scope N_scope.
 
 (* Every message that maybeRequest's loop adds to the wire, for ANY number of loop
@@ -79,3 +79,16 @@ Theorem c11_no_duplicate_requests : forall s ballast o k,
   NoDup (rq_queue (s_reqs s') ++ map fst (rq_requested (s_reqs s'))).
 Proof. exact step_nodup. Qed.
 Print Assumptions c11_no_duplicate_requests.
+
+(* Cancels refer to outstanding requests.  For every step of the peer core from ANY state (any
+   scheduler command — cancel of a block, of a whole piece —, any expiry tick with any set of
+   timed-out requests, any message, congestion or oracle value), the Cancel messages written are
+   exactly the Cancels (index, offset and length computed from the block number as for the
+   Request) of a list of DISTINCT blocks, each of which was requested from this peer and not yet
+   cancelled when the step began: never a Cancel for a block that is only queued, already
+   cancelled, already answered or unknown, and never two for one request. *)
+Theorem c11_cancels_outstanding : forall s ballast o k,
+  exists sent, filter is_cancel (a_msgs (fst (step s ballast o k))) = map (cancel_of (the_geo s)) sent /\
+               NoDup sent /\ incl sent (uncancelled s).
+Proof. exact step_cancels. Qed.
+Print Assumptions c11_cancels_outstanding.
